@@ -112,6 +112,21 @@ CHECKS["C07"] = ("other",
     "Not claimed: well-formedness produced by serde/quick-xml themselves; equality of the serde loader with the libyaml loader.",
     TB % "c07", "call-graph rules + decision tables via abstract interpretation of MIR (no execution)", "DESIGN.md §5 C07")
 
+CHECKS["C12"] = ("other",
+    "On every path through every caller of eval_rules_file (loops unrolled abstractly up to 3 scope creations) each "
+    "evaluation runs on a root scope that was just built by root_scope from the rules value being evaluated, a scope is never "
+    "evaluated twice, and the extracted record comes from that scope; no static mut / thread_local / interior-mutable static "
+    "exists in the library, CLI, Lambda or FFI crates (write-once Lazy/OnceLock payloads are checked); no type or collection "
+    "owns a RootScope. Failure-iff-some-pair is C06. Not claimed: effects of directory walk order on which files are found.",
+    TB % "c12", "monitor via abstract interpretation of MIR + type-level queries (no execution)", "DESIGN.md §5 C12")
+CHECKS["C17"] = ("other",
+    "PathAwareValue::merge decided as a per-entry monitor (absent key => exactly one value insert and one key record; present key "
+    "=> MultipleValues error at once; List/List extends; every other kind pair is an error), every caller of merge returns the "
+    "merge error on all paths (no unwrap), and in Validate::execute each of the four evaluation sinks receives the value folded "
+    "from --input-parameters. Found and repaired two genuine defects (payload path ignored the parameters; structured path "
+    "unwrapped the merge). Not claimed: independence from the order of parameter files.",
+    TB % "c17", "monitors + def-use via abstract interpretation of MIR (no execution)", "DESIGN.md §5 C17")
+
 NOT_APPLICABLE = {
 }
 
